@@ -73,6 +73,11 @@ pub fn replay_c02(ctx: &Ctx, c: &Value, rep: &mut Report) {
         }
     }
     let mut any = false;
+    // the same rule behind the token index: an engine holding only this rule must find it for exactly the URLs
+    // its own matcher accepts (supported schemes only), with and without optimisation
+    let listed = adblock::lists::parse_filter(rule, true, ParseOptions::default()).is_ok();      // one-character lines are comments
+    let engines: Vec<Engine> = if !listed { vec![] } else { [false, true].iter()
+        .filter_map(|opt| guarded(|| Engine::from_rules_parametrised([rule], ParseOptions::default(), true, *opt)).ok()).collect() };
     for (i, url) in ctx.urls.iter().enumerate() {
         let req = match Request::new(url, "", "script") {
             Ok(r) => r,
@@ -83,6 +88,20 @@ pub fn replay_c02(ctx: &Ctx, c: &Value, rep: &mut Report) {
         };
         rep.evaluations += 1;
         let (obs_v, obs_again) = match_twice(&filter, &req);
+        if req.is_supported {
+            for (k, e) in engines.iter().enumerate() {
+                if let Ok(m) = guarded(|| e.check_network_request(&req).matched) {
+                    if json!(m) != obs_v {
+                        let folded = (rule == "|http://" || rule == "|https://") && (url.starts_with("ws://") || url.starts_with("wss://"));
+                        let obs = json!({"engine": m, "matcher": obs_v});
+                        rep.mismatch(json!({"what": "index-vs-matcher", "rule": rule, "url": url, "opt": k == 1,
+                                            "observed": obs, "allowed": [{"engine": obs_v, "matcher": obs_v}],
+                                            "devs": if folded { json!(["wsMatchesHttpOnlyRule"]) } else { json!([]) },
+                                            "model": if folded { obs.clone() } else { Value::Null }}));
+                    }
+                }
+            }
+        }
         if obs_again != obs_v {
             rep.mismatch(json!({"what": "recompiled", "rule": rule, "url": url, "observed": obs_again, "allowed": allowed[i],
                                 "first_answer": obs_v, "devs": []}));
@@ -649,6 +668,43 @@ pub fn replay_net(ctx: &NetCtx, c: &Value, rep: &mut Report) {
                         rep.mismatch(json!({"what": "reload-differs", "rules": rules, "tags": tags, "opt": opt,
                             "req": {"url": q.url, "src": q.src, "type": q.alias},
                             "observed": {"v": obs.0, "csp": obs.1}, "allowed": [{"v": orig.0, "csp": orig.1}], "devs": devs, "model": model}));
+                    }
+                }
+            }
+        }
+    }
+    // C01 relational clause on one-rule lists: the indexed engine finds the rule for exactly the requests its own
+    // matcher accepts (this holds whatever the Ideal says about the pattern: where the Ideal is three-valued,
+    // e.g. '||host*...' anchored in the middle of a label, index and matcher must still agree with each other)
+    if rules.len() == 1 {
+        use adblock::filters::network::{NetworkFilterMaskHelper, NetworkMatchable};
+        if let Ok(f) = NetworkFilter::parse(&rules[0], true, Default::default()) {
+            let listed = adblock::lists::parse_filter(&rules[0], true, ParseOptions::default()).is_ok();
+            let plain_blocking = listed && !f.is_exception() && !f.is_csp() && !f.is_removeparam() && !f.is_badfilter() && !f.is_generic_hide()
+                && !rules[0].contains("tag=") && (!f.is_redirect() || f.also_block_redirect());
+            if plain_blocking {
+                for opt in [false, true] {
+                    let eng = match guarded(|| build_engine(&rules, &tags, &ctx.resources, opt)) { Ok(e) => e, Err(_) => continue };
+                    for q in ctx.reqs.iter() {
+                        let req = match Request::new(&q.url, &q.src, &q.alias) { Ok(r) => r, Err(_) => continue };
+                        if !req.is_supported { continue; }
+                        rep.evaluations += 1;
+                        let mut rm = adblock::regex_manager::RegexManager::default();
+                        let pair = guarded(|| (f.matches(&req, &mut rm), eng.check_network_request(&req).matched));
+                        if let Ok((by_matcher, by_engine)) = pair {
+                            if by_matcher != by_engine {
+                                // open finding wsMatchesHttpOnlyRule: the matcher of a scheme-folded '|http://' / '|https://'
+                                // rule accepts ws(s) URLs, the index (scheme token) keeps the engine from applying it
+                                let pat = rules[0].split('$').next().unwrap_or("");
+                                let folded = (pat == "|http://" || pat == "|https://") && (q.url.starts_with("ws://") || q.url.starts_with("wss://"));
+                                let obs = json!({"engine": by_engine, "matcher": by_matcher});
+                                rep.mismatch(json!({"what": "index-vs-matcher", "rules": rules, "opt": opt,
+                                    "req": {"url": q.url, "src": q.src, "type": q.alias},
+                                    "observed": obs, "allowed": [{"engine": by_matcher, "matcher": by_matcher}],
+                                    "devs": if folded { json!(["wsMatchesHttpOnlyRule"]) } else { json!([]) },
+                                    "model": if folded { obs.clone() } else { Value::Null }}));
+                            }
+                        }
                     }
                 }
             }
